@@ -1391,8 +1391,9 @@ class Compiler:
 
         for name in node.names:
             if not node.local:
+                # each name gets its own element of an unpacked value
                 assignment += template(
-                    "rcontext[KEY] = __value", KEY=ast.Constant(
+                    "rcontext[KEY] = econtext[KEY]", KEY=ast.Constant(
                         str(name)))
 
         return assignment
